@@ -1,6 +1,7 @@
 package arvados
 
 import (
+	"fmt"
 	"time"
 )
 
@@ -127,4 +128,113 @@ func GosymH_C07_perturb() {
 	if err == ErrSignatureMissing {
 		gosym_Reach("missing")
 	}
+}
+
+var gosymC07Hashes = []string{"0123456789abcdef0123456789abcdef", "fedcba9876543210fedcba9876543210", "00000000000000000000000000000000"}
+
+// reference: a block locator with every +A... hint removed
+func gosymDropPermHints(loc string) string {
+	out := ""
+	start := 0
+	first := true
+	for i := 0; i <= len(loc); i++ {
+		if i == len(loc) || loc[i] == '+' {
+			part := loc[start:i]
+			if first {
+				out = part
+				first = false
+			} else if len(part) == 0 || part[0] != 'A' {
+				out += "+" + part
+			}
+			start = i + 1
+		}
+	}
+	return out
+}
+
+// GosymH_C07_signmanifest: signing a manifest replaces the signature on every block locator (whatever hints it
+// carries and wherever the old signature sits among them) and leaves stream names, file tokens, the other hints
+// and all whitespace exactly as they were.  The manifest follows the published grammar: two streams, locators
+// with symbolic hashes in several hint arrangements, file tokens whose position/size fields are digit strings of
+// solver-chosen length (the grammar allows any number of digits) and whose names are arbitrary non-blank bytes.
+func GosymH_C07_signmanifest() {
+	token := gosym_String("token", 1, "print")
+	key := gosym_Bytes("key", 1, "any")
+	ttl, ttlHex := gosymTTLs[2], gosymTTLHex[2]
+	expSec := gosym_Int64Range("exp", 1<<28, (1<<32)-1)
+	exp8 := fmt.Sprintf("%08x", expSec) // the field's format is checked independently by GosymH_C07_roundtrip
+
+	oldsig := "+A" + gosym_String("oldsig", 40, "hex") + "@" + gosym_String("oldexp", 8, "hex")
+	mkloc := func(tag string) string {
+		h := gosymC07Hashes[int(tag[0]-'0')]
+		if tag == "0" && gosym_Param("symhash", 0) == 1 {
+			h = gosym_String("hash"+tag, 32, "hex")
+		}
+		switch gosym_Choice("hints"+tag, 6) {
+		case 0:
+			return h + "+3"
+		case 1:
+			return h + "+3" + oldsig
+		case 2:
+			return h + "+12+Bfoo" + oldsig + "+Cbar"
+		case 3:
+			return h + oldsig + "+3"
+		case 4:
+			return h + "+0+Rzzzzz-" + gosym_String("rsig"+tag, 4, "hex") + "@5f000000"
+		}
+		return h
+	}
+	digits := func(tag string) string {
+		n := []int{1, 2, 32, 33}[gosym_Choice("ndigits"+tag, 4)]
+		return gosym_String("digits"+tag, n, "digit")
+	}
+	name := func(tag string) string {
+		s := gosym_String("name"+tag, 1, "any")
+		for i := 0; i < len(s); i++ {
+			gosym_Assume(gosym_And(s[i] > ' ', s[i] != 0x7f))
+		}
+		return s
+	}
+	var toks []string // tokens in order, "\n" entries mark line ends
+	var isLoc []bool
+	add := func(t string, loc bool) { toks = append(toks, t); isLoc = append(isLoc, loc) }
+	add(".", false)
+	add(mkloc("0"), true)
+	if gosym_Fork("two-locators") {
+		add(mkloc("1"), true)
+	}
+	add(digits("p0")+":"+digits("s0")+":"+name("0"), false)
+	if gosym_Fork("second-stream") {
+		add("\n", false)
+		add("./"+name("d"), false)
+		add(mkloc("2"), true)
+		add("0:0:"+name("1"), false)
+	}
+	text := ""
+	for i, t := range toks {
+		if i > 0 && t != "\n" && toks[i-1] != "\n" {
+			text += " "
+		}
+		text += t
+	}
+	text += "\n"
+
+	out := SignManifest(text, token, time.Unix(expSec, 0), ttl, key)
+
+	want := ""
+	for i, t := range toks {
+		if i > 0 && t != "\n" && toks[i-1] != "\n" {
+			want += " "
+		}
+		if isLoc[i] {
+			bare := gosymDropPermHints(t)
+			want += bare + "+A" + gosym_HMACSHA1Hex(key, []byte(t[:32]+"@"+token+"@"+exp8+"@"+ttlHex)) + "@" + exp8
+		} else {
+			want += t
+		}
+	}
+	want += "\n"
+	gosym_Assert(len(out) == len(want), "signed-manifest-length")
+	gosym_Assert(out == want, "only-block-signatures-change")
+	gosym_Reach("done")
 }
